@@ -3,6 +3,7 @@
 From PowHsm Require Import Model.LedgerProtocol Proofs.C13.
 From PowHsm Require Import Gen.Src Proofs.SrcEquivLedger.
 From PowHsm Require Import Gen.SrcM Proofs.SrcEquivDongleM.
+From PowHsm Require Import Proofs.SrcEquivProtoM Proofs.SrcEquivStateM.
 Open Scope N_scope.
 
 (* getPubKey: whatever key bytes the device returns for the requested path are the reply's
@@ -114,3 +115,19 @@ Theorem C13_source_get_signer_parameters_is_model :
   forall (self : pv) (w : world),
   srcm_HSM2Dongle__get_signer_parameters self w = mres params_obj (get_signer_parameters w).
 Proof. exact srcm_get_signer_parameters_ok. Qed.
+
+(* TIE BY TRANSLATION (device monad): get_blockchain_state of ledger/hsm2dongle.py, as regenerated from the Python source
+   text, runs on every world as the model's: each of the seven hashes asked for with ITS selector and checked against it,
+   the total difficulty read as an unsigned big-endian number, the three flags in order *)
+Theorem C13_source_get_blockchain_state_is_model :
+  forall (self : pv) (w : world),
+  srcm_HSM2Dongle__get_blockchain_state self w = mres state_pv (get_blockchain_state w).
+Proof. exact srcm_get_blockchain_state_ok. Qed.
+
+(* the handler that builds the reply from that dictionary, as translated, is the model's handler *)
+Theorem C13_source_blockchain_state_handler_is_model :
+  forall (kind : dongle_kind) (init : pm pv) (self request : pv) (req : obj) (w : world),
+  init_ok kind init ->
+  srcm_HSM2ProtocolLedger___blockchain_state init self request w =
+  mres rtuple_pv (op_blockchain_state kind req w).
+Proof. exact srcm_blockchain_state_handler_ok. Qed.
